@@ -1445,6 +1445,7 @@ class Machine:
             return str(r)
         if isinstance(x, (Ptr, Fn)): return 'ptr'
         if isinstance(x, bool): return int(x)
+        if isinstance(x, int) and x >= (1 << 63): return x - (1 << 64)
         return x
 
     def eval_trace(self, mdl):
